@@ -9,6 +9,7 @@ import EaselModel.Buffer.Quiet
 import EaselModel.Buffer.TotalHist
 import EaselModel.Buffer.MemExact
 import EaselModel.Buffer.Stable
+import EaselModel.Buffer.MemRealLemmas  -- round4-mem
 /-! # C05 — the input buffer behaves as a byte array with a cursor in every mode and history
 
 Property theorems only; the lemmas are in `EaselModel/Buffer/*`. `Buf` is the model of `ESL_BUFFER`
@@ -407,5 +408,161 @@ example : plainWitness.hasfp = true ∧ plainWitness.eof = false ∧ plainWitnes
     plainWitness.pos < plainWitness.n ∧ plainWitness.n - plainWitness.pos < 0 + plainWitness.pagesize ∧
     plainWitness.balloc - plainWitness.n < plainWitness.pagesize := by decide
 example : (refill plainWitness 0).2.memgen ≠ plainWitness.memgen := by decide
+
+-- BEGIN round4-mem
+/-! ## The string/number helpers of `esl_mem.c` that every parser applies to buffer lines
+
+Model `EaselModel/Buffer/Mem.lean` (loops and index expressions of the C code, every access bounds-checked, signed
+overflow = fault), specification `EaselModel/Buffer/MemSpec.lean`. Every theorem is for every byte string (bytes ≥ 0x80 and
+embedded NULs included), every base, no bound on lengths. "`= some …`" includes "never faults". -/
+
+/-- **`esl_mem_strtoi32`** satisfies the specification `Mem.StrtoiSpec` (see there: EINVAL / EFORMAT / ERANGE / OK each
+    characterised by an iff on the independent parse, `nc` and `val` in every case, never a fault). -/
+theorem strtoi32_spec (p : Bytes) (base : Int) : Mem.StrtoiSpec Mem.i32min Mem.i32max p base (Mem.strtoi32 p base) :=
+  Mem.strtoi_spec (by decide) (by decide) p base
+
+/-- **`esl_mem_strtoi64`**: the same specification with the bounds of `int64_t`. -/
+theorem strtoi64_spec (p : Bytes) (base : Int) : Mem.StrtoiSpec Mem.i64min Mem.i64max p base (Mem.strtoi64 p base) :=
+  Mem.strtoi_spec (by decide) (by decide) p base
+
+/-- The same code for any integer type `[lo, hi]` that holds the digit values −36 … 35 (`esl_mem_strtoi` on any `int`). -/
+theorem strtoi_spec_any_width (lo hi : Int) (hlo : lo ≤ -36) (hhi : 35 ≤ hi) (p : Bytes) (base : Int) :
+    Mem.StrtoiSpec lo hi p base (Mem.strtoi lo hi p base) :=
+  Mem.strtoi_spec hlo hhi p base
+
+/-- The answer in closed form: the model equals the specification function `Mem.specRes` (structural recursion only). -/
+theorem strtoi_eq_specRes (lo hi : Int) (hlo : lo ≤ -36) (hhi : 35 ≤ hi) (p : Bytes) (base : Int) :
+    Mem.strtoi lo hi p base = Mem.specRes lo hi p base :=
+  Mem.strtoi_eq_spec hlo hhi p base
+
+/-- **`esl_memspn`** = length of the longest prefix of bytes in the C-string set (the terminating NUL is a member, the way
+    `strchr` sees it; the set ends at its first NUL). -/
+theorem memspn_spec (p set : Bytes) : Mem.memspn p set = some (p.takeWhile (Mem.inSet set)).length :=
+  Mem.memspn_eq p set
+
+/-- **`esl_memcspn`** = length of the longest prefix of bytes not in the set. -/
+theorem memcspn_spec (p set : Bytes) : Mem.memcspn p set = some (p.takeWhile (fun c => !Mem.inSet set c)).length :=
+  Mem.memcspn_eq p set
+
+/-- **`esl_memtok`** answers `Mem.tokSpec`: with `S = tokSplit delim p` (leading delimiters, maximal delimiter-free run,
+    the delimiters after it, remainder — cut by `takeWhile`/`dropWhile`): `eslEOL`, token NULL/0, `*p`/`*n` untouched if the
+    token is empty; else `eslOK`, token = `(|skipped|, |tok|)`, `*p` advanced by `|skipped|+|tok|+|trail|`, `*n = |rest|`. -/
+theorem memtok_spec (p delim : Bytes) : Mem.memtok p delim = some (Mem.tokSpec delim p) :=
+  Mem.memtok_eq p delim
+
+/-- the four pieces are the input in order; the pieces have the stated classes; the token is maximal; the remainder starts
+    with a non-delimiter; the token pointer/length and the advanced `*p` denote `tok` and `rest` -/
+theorem memtok_split_meaning (p delim : Bytes) :
+    (Mem.tokSplit delim p).skipped ++ (Mem.tokSplit delim p).tok ++ (Mem.tokSplit delim p).trail ++ (Mem.tokSplit delim p).rest = p ∧
+    (∀ c ∈ (Mem.tokSplit delim p).skipped, Mem.inSet delim c = true) ∧
+    (∀ c ∈ (Mem.tokSplit delim p).tok, Mem.inSet delim c = false) ∧
+    (∀ c ∈ (Mem.tokSplit delim p).trail, Mem.inSet delim c = true) ∧
+    (∀ c, ((Mem.tokSplit delim p).trail ++ (Mem.tokSplit delim p).rest).head? = some c → Mem.inSet delim c = true) ∧
+    (∀ c, (Mem.tokSplit delim p).rest.head? = some c → Mem.inSet delim c = false) ∧
+    (p.drop (Mem.tokSplit delim p).skipped.length).take (Mem.tokSplit delim p).tok.length = (Mem.tokSplit delim p).tok ∧
+    p.drop ((Mem.tokSplit delim p).skipped.length + (Mem.tokSplit delim p).tok.length + (Mem.tokSplit delim p).trail.length)
+      = (Mem.tokSplit delim p).rest :=
+  ⟨Mem.tokSplit_concat delim p, (Mem.tokSplit_classes delim p).1, (Mem.tokSplit_classes delim p).2.1,
+   (Mem.tokSplit_classes delim p).2.2.1, (Mem.tokSplit_classes delim p).2.2.2.1, (Mem.tokSplit_classes delim p).2.2.2.2,
+   (Mem.tokSplit_slices delim p).1, (Mem.tokSplit_slices delim p).2⟩
+
+/-- **`esl_memtok` returns `eslEOL` iff only delimiters remain.** -/
+theorem memtok_eol_iff (p delim : Bytes) :
+    (Mem.memtok p delim).map (·.st) = some .eol ↔ ∀ c ∈ p, Mem.inSet delim c = true := by
+  rw [Mem.memtok_eq, ← Mem.tokSplit_tok_nil_iff]
+  unfold Mem.tokSpec
+  by_cases h : (Mem.tokSplit delim p).tok = [] <;> simp [h]
+
+/-- **`esl_memstrcmp(p, n, s)`** on non-NULL arguments is TRUE iff the `n` bytes equal the C string `s` (so: FALSE whenever
+    the line contains a NUL). NULL conventions: `(NULL, 0, NULL)` TRUE; `(NULL, 0, s)` TRUE iff `s` is empty; `(p, n, NULL)` FALSE. -/
+theorem memstrcmp_spec (p s : Bytes) :
+    Mem.memstrcmp (some p) (some s) = some (decide (p = Mem.cstr s)) ∧
+    Mem.memstrcmp none none = some true ∧ Mem.memstrcmp none (some s) = some (decide (Mem.cstr s = [])) ∧
+    Mem.memstrcmp (some p) none = some false := by
+  refine ⟨?_, (Mem.memstrcmpF_null id p s).1, (Mem.memstrcmpF_null id p s).2.1, (Mem.memstrcmpF_null id p s).2.2⟩
+  have := Mem.memstrcmpF_some id p s
+  simp only [List.map_id] at this; exact this
+
+/-- **`esl_memstrpfx`** is TRUE iff the C string `s` is a prefix of the line; FALSE if either pointer is NULL. -/
+theorem memstrpfx_spec (p s : Bytes) :
+    Mem.memstrpfx (some p) (some s) = some (decide (Mem.cstr s <+: p)) ∧
+    Mem.memstrpfx none (some s) = some false ∧ Mem.memstrpfx (some p) none = some false := by
+  refine ⟨?_, rfl, rfl⟩
+  have := Mem.memstrpfxF_some id p s
+  simp only [List.map_id] at this; exact this
+
+/-- **`esl_memstrcmp_case` / `esl_memstrpfx_case`**: the same after `toupper` (C locale: only `a`–`z` change) on both sides. -/
+theorem memstr_case_spec (p s : Bytes) :
+    Mem.memstrcmp_case (some p) (some s) = some (decide (p.map Mem.toupperB = (Mem.cstr s).map Mem.toupperB)) ∧
+    Mem.memstrpfx_case (some p) (some s) = some (decide ((Mem.cstr s).map Mem.toupperB <+: p.map Mem.toupperB)) :=
+  ⟨Mem.memstrcmpF_some _ p s, Mem.memstrpfxF_some _ p s⟩
+
+/-- **`esl_memstrcontains`** is TRUE iff the line is not empty and the C string occurs in it. (On an empty line the code
+    answers FALSE even for the empty string, which every `strstr` finds.) FALSE if either pointer is NULL. -/
+theorem memstrcontains_spec (p s : Bytes) :
+    Mem.memstrcontains (some p) (some s) = some (decide (p ≠ [] ∧ Mem.cstr s <:+: p)) ∧
+    Mem.memstrcontains none (some s) = some false ∧ Mem.memstrcontains (some p) none = some false :=
+  ⟨Mem.memstrcontains_some p s, rfl, rfl⟩
+
+/-- **`esl_memstrdup` / `esl_memstrcpy`** produce the bytes followed by a terminating NUL in a block of `n+1` bytes
+    (no write outside it); `esl_memstrdup(NULL, …)` yields NULL. -/
+theorem memstrdup_spec (p : Bytes) :
+    Mem.memstrdup (some p) = some (some (p ++ [0])) ∧ Mem.memstrdup none = some none ∧ Mem.memstrcpy p = some (p ++ [0]) :=
+  ⟨Mem.memstrdup_some p, rfl, Mem.memstrcpy_eq p⟩
+
+/-- **`esl_mem_IsReal`** never reads outside the line, and accepts exactly `Mem.isRealSpec`: blanks, an optional sign, a
+    blank-free body with at most one `.`, at most one `e`/`E`, no `.` after the `e`/`E` and at least one digit, blanks.
+    This is a statement about the code, weaker than its header ("convertible … by the rules of atof()"): bytes of the body
+    that are neither digit, `.`, `e`, `E` are passed over (witnesses below). -/
+theorem memIsReal_spec (p : Bytes) : Mem.memIsReal (some p) = some (Mem.isRealSpec p) ∧ Mem.memIsReal none = some false :=
+  ⟨Mem.memIsReal_eq p, rfl⟩
+
+theorem memIsReal_no_fault (p : Option Bytes) : Mem.memIsReal p ≠ none :=
+  Mem.memIsReal_ne_none p
+
+-- accepted although not numbers: "1x", "abc1", "--1"; "1e-5" is accepted only through the same accident; "1.2.3" is refused
+example : Mem.memIsReal (some [49, 120]) = some true := by rw [Mem.memIsReal_eq]; decide
+example : Mem.memIsReal (some [97, 98, 99, 49]) = some true := by rw [Mem.memIsReal_eq]; decide
+example : Mem.memIsReal (some [45, 45, 49]) = some true := by rw [Mem.memIsReal_eq]; decide
+example : Mem.memIsReal (some [49, 101, 45, 53]) = some true := by rw [Mem.memIsReal_eq]; decide
+example : Mem.memIsReal (some [49, 46, 50, 46, 51]) = some false := by rw [Mem.memIsReal_eq]; decide
+example : Mem.memIsReal (some [32, 45, 49, 46, 53, 101, 51, 32]) = some true := by rw [Mem.memIsReal_eq]; decide
+
+-- non-vacuity: the width hypotheses hold for the three C types, and concrete instances on each branch
+example : Mem.i32min ≤ -36 ∧ 35 ≤ Mem.i32max ∧ Mem.i64min ≤ -36 ∧ 35 ≤ Mem.i64max := by decide
+-- "2147483647" / "2147483648" / "-2147483648" / "-2147483649" in base 10
+example : Mem.strtoi32 [50,49,52,55,52,56,51,54,52,55] 10 = ⟨.ok, some 10, some 2147483647⟩ := by
+  rw [Mem.strtoi32, Mem.strtoi_eq_spec (by decide) (by decide)]; decide
+example : Mem.strtoi32 [50,49,52,55,52,56,51,54,52,56] 10 = ⟨.erange, some 10, some 2147483647⟩ := by
+  rw [Mem.strtoi32, Mem.strtoi_eq_spec (by decide) (by decide)]; decide
+example : Mem.strtoi32 [45,50,49,52,55,52,56,51,54,52,56] 10 = ⟨.ok, some 11, some (-2147483648)⟩ := by
+  rw [Mem.strtoi32, Mem.strtoi_eq_spec (by decide) (by decide)]; decide
+example : Mem.strtoi32 [45,50,49,52,55,52,56,51,54,52,57,57] 10 = ⟨.erange, some 11, some (-2147483648)⟩ := by
+  rw [Mem.strtoi32, Mem.strtoi_eq_spec (by decide) (by decide)]; decide
+-- " -0x1fz" base 0; "0x" base 0 (prefix without digit: EFORMAT); "0" base 0 (octal zero); "0X1" base 16 (capital X is no prefix); base 37
+example : Mem.strtoi32 [32,45,48,120,49,102,122] 0 = ⟨.ok, some 6, some (-31)⟩ := by
+  rw [Mem.strtoi32, Mem.strtoi_eq_spec (by decide) (by decide)]; decide
+example : Mem.strtoi32 [48,120] 0 = ⟨.eformat, some 0, some 0⟩ := by
+  rw [Mem.strtoi32, Mem.strtoi_eq_spec (by decide) (by decide)]; decide
+example : Mem.strtoi32 [48] 0 = ⟨.ok, some 1, some 0⟩ := by
+  rw [Mem.strtoi32, Mem.strtoi_eq_spec (by decide) (by decide)]; decide
+example : Mem.strtoi32 [48,88,49] 16 = ⟨.ok, some 1, some 0⟩ := by
+  rw [Mem.strtoi32, Mem.strtoi_eq_spec (by decide) (by decide)]; decide
+example : Mem.strtoi32 [49] 37 = ⟨.einval, none, none⟩ := by
+  rw [Mem.strtoi32, Mem.strtoi_eq_spec (by decide) (by decide)]; decide
+-- "9223372036854775808" overflows int64 at its last digit
+example : Mem.strtoi64 [57,50,50,51,51,55,50,48,51,54,56,53,52,55,55,53,56,48,56] 10 = ⟨.erange, some 19, some 9223372036854775807⟩ := by
+  rw [Mem.strtoi64, Mem.strtoi_eq_spec (by decide) (by decide)]; decide
+-- " ab  c" with delimiter " ": token "ab" at 1, two trailing blanks skipped, 1 byte left; "  " → EOL; NUL is always a delimiter
+example : Mem.memtok [32,97,98,32,32,99] [32] = some ⟨.ok, some (1, 2), 5, 1⟩ := by rw [Mem.memtok_eq]; decide
+example : Mem.memtok [32,32] [32] = some ⟨.eol, none, 0, 2⟩ := by rw [Mem.memtok_eq]; decide
+example : Mem.memspn [0,32,97] [32] = some 2 ∧ Mem.memcspn [97,98,0,99] [120] = some 2 := by
+  rw [Mem.memspn_eq, Mem.memcspn_eq]; decide
+-- "ab" vs "ab", "ab\0c"; "a\0" never equals; contains on the empty line is FALSE even for ""
+example : Mem.memstrcmp (some [97,98]) (some [97,98,0,99]) = some true ∧ Mem.memstrcmp (some [97,0]) (some [97]) = some false := by
+  rw [(memstrcmp_spec _ _).1, (memstrcmp_spec _ _).1]; decide
+example : Mem.memstrcontains (some []) (some []) = some false ∧ Mem.memstrcontains (some [120,97,98]) (some [97,98]) = some true := by
+  rw [(memstrcontains_spec _ _).1, (memstrcontains_spec _ _).1]; decide
+-- END round4-mem
 
 end EaselModel.Props.C05
